@@ -30,7 +30,7 @@ AREA = "Wallet"
 INVS = ["Durable", "Atomic", "OneCommit", "OkMeansComplete", "FaultMeansErrOrComplete", "NoDanglingTx", "Snapshot",
         "CrashAtomic", "RetryConverges"]
 SPEC_MUTANTS = ["StmtOutsideTxn", "CommitOnErr", "SwallowError", "TwoTxns", "ReaderNoTxn"]
-SHARDS = 6
+SHARDS = 8
 
 
 # ------------------------------------------------------------------------------------------------
